@@ -5,6 +5,7 @@ import (
 	"go/ast"
 	"go/token"
 	"go/types"
+	"golang.org/x/tools/go/ssa"
 	"sort"
 	"strings"
 )
@@ -415,11 +416,212 @@ func ruleZ3(c *Ctx) {
 	}
 	// the arrays behind the restored slices are cleaned (through Z2-checked resets) before the wipe
 	pre := strings.Join(ri.preCalls, ",")
-	c.check(strings.Contains(pre, "PV") , "Z3", "PSIPMsg.Reset:pre:PV", ri.fd.Pos(), "PV.Reset() runs before the wipe (clears the contacts array, Z2)")
+	c.check(strings.Contains(pre, "PV"), "Z3", "PSIPMsg.Reset:pre:PV", ri.fd.Pos(), "PV.Reset() runs before the wipe (clears the contacts array, Z2)")
 	c.check(strings.Contains(pre, "HL"), "Z3", "PSIPMsg.Reset:pre:HL", ri.fd.Pos(), "HL.Reset() runs before the wipe (clears the header array, Z2)")
 	// PHdrVals.Reset reaches Contacts.Reset
 	hv := analyseReset(c, "PHdrVals.Reset")
 	c.check(hv.covered["Contacts"] == "Reset()", "Z3", "PHdrVals.Reset:Contacts", hv.fd.Pos(), "PHdrVals.Reset resets the contact list through PContacts.Reset")
+}
+
+// Z5: the typestate predicates say what the state says. Empty() is true exactly in the initial state, Parsed()
+// exactly in the finished state, Pending() exactly in every other one, Err() exactly in the error state; for the
+// list objects Empty() is N == 0 and Parsed() is N > 0; PFLine.Request() is Status == 0. Decided by evaluating each
+// predicate's SSA for every value of the single field it reads. (A fresh or reset object must look empty, a
+// finished one parsed: the dispatcher and the callers of Reset rely on these.)
+func ruleZ5(c *Ctx) {
+	type spec struct {
+		typ, parser string
+		prefixes    []string
+	}
+	n := 0
+	evalPred := func(fn *ssa.Function, val int64) (res bool, field string, ok bool) {
+		b := fn.Blocks[0]
+		var prev *ssa.BasicBlock
+		var ev func(v ssa.Value) (int64, bool, bool) // (int value, bool value, ok)
+		ev = func(v ssa.Value) (int64, bool, bool) {
+			switch x := v.(type) {
+			case *ssa.Const:
+				if k, isC := constIntOf(x); isC {
+					return k, k != 0, true
+				}
+				if x.Value != nil {
+					return 0, x.Value.String() == "true", true
+				}
+			case *ssa.UnOp:
+				if x.Op == token.NOT {
+					_, bv, okk := ev(x.X)
+					return 0, !bv, okk
+				}
+				if x.Op == token.MUL {
+					if fa, isF := x.X.(*ssa.FieldAddr); isF {
+						if st := derefStruct(fa.X.Type()); st != nil {
+							name := st.Field(fa.Field).Name()
+							if field == "" || field == name {
+								field = name
+								return val, val != 0, true
+							}
+						}
+					}
+				}
+			case *ssa.Field:
+				if st, isS := x.X.Type().Underlying().(*types.Struct); isS {
+					name := st.Field(x.Field).Name()
+					// embedded internal-state struct: look through
+					if inner, isI := x.X.(*ssa.Field); isI {
+						_ = inner
+					}
+					if _, isStruct := x.Type().Underlying().(*types.Struct); isStruct {
+						return 0, false, false
+					}
+					if field == "" || field == name {
+						field = name
+						return val, val != 0, true
+					}
+				}
+			case *ssa.Convert:
+				return ev(x.X)
+			case *ssa.ChangeType:
+				return ev(x.X)
+			case *ssa.Phi:
+				for j, p := range x.Block().Preds {
+					if p == prev {
+						return ev(x.Edges[j])
+					}
+				}
+			case *ssa.BinOp:
+				a, _, ok1 := ev(x.X)
+				bb, _, ok2 := ev(x.Y)
+				if !ok1 || !ok2 {
+					return 0, false, false
+				}
+				var r bool
+				switch x.Op {
+				case token.EQL:
+					r = a == bb
+				case token.NEQ:
+					r = a != bb
+				case token.LSS:
+					r = a < bb
+				case token.LEQ:
+					r = a <= bb
+				case token.GTR:
+					r = a > bb
+				case token.GEQ:
+					r = a >= bb
+				default:
+					return 0, false, false
+				}
+				return 0, r, true
+			}
+			return 0, false, false
+		}
+		for steps := 0; steps < 50; steps++ {
+			switch t := b.Instrs[len(b.Instrs)-1].(type) {
+			case *ssa.Return:
+				_, r, okk := ev(t.Results[0])
+				return r, field, okk
+			case *ssa.If:
+				_, cv, okk := ev(t.Cond)
+				if !okk {
+					return false, field, false
+				}
+				prev = b
+				if cv {
+					b = b.Succs[0]
+				} else {
+					b = b.Succs[1]
+				}
+			case *ssa.Jump:
+				prev = b
+				b = b.Succs[0]
+			default:
+				return false, field, false
+			}
+		}
+		return false, field, false
+	}
+	for _, sp := range []spec{
+		{"PCallIDBody", "ParseCallIDVal", []string{"ci"}}, {"PUIntBody", "ParseUIntVal", []string{"cl"}}, {"PCSeqBody", "ParseCSeqVal", []string{"cs"}},
+		{"PFLine", "ParseFLine", []string{"fl"}}, {"PFromBody", "ParseNameAddrPVal", []string{"fb"}}, {"PSIPMsg", "ParseSIPMsg", []string{"SIPMsg"}},
+	} {
+		consts := stateConstsOf(c, sp.parser, sp.prefixes...)
+		var initV, finV, errV int64 = -1, -1, -1
+		for k, name := range consts {
+			switch {
+			case strings.HasSuffix(name, "Init") && !strings.Contains(strings.TrimSuffix(name, "Init"), "Init") && len(name) <= len(sp.prefixes[0])+4:
+				initV = k
+			case strings.HasSuffix(name, "FIN"):
+				finV = k
+			case strings.HasSuffix(name, "Err") || strings.HasSuffix(name, "ERR"):
+				errV = k
+			}
+		}
+		for _, m := range []string{"Empty", "Parsed", "Pending", "Err"} {
+			fn := c.SFuncs[sp.typ+"."+m]
+			if fn == nil {
+				continue
+			}
+			if initV < 0 || finV < 0 {
+				c.fail("Z5", sp.typ+"."+m, fn.Pos(), "initial / finished state constants not identified")
+				continue
+			}
+			n++
+			okAll, bad := true, ""
+			fld := ""
+			for v := int64(0); v < 64; v++ {
+				got, f, okk := evalPred(fn, v)
+				if !okk {
+					okAll, bad = false, "the predicate could not be evaluated (reads more than one field or calls something)"
+					break
+				}
+				fld = f
+				var want bool
+				switch m {
+				case "Empty":
+					want = v == initV
+				case "Parsed":
+					want = v == finV
+				case "Pending":
+					want = v != initV && v != finV
+				case "Err":
+					want = v == errV
+				}
+				if got != want {
+					okAll, bad = false, fmt.Sprintf("for state value %d (%s) it answers %v", v, consts[v], got)
+					break
+				}
+			}
+			c.check(okAll && fld == "state", "Z5", sp.typ+"."+m, fn.Pos(), sp.typ+"."+m+"() is decided by the state field alone and is true exactly "+map[string]string{"Empty": "in the initial state", "Parsed": "in the finished state", "Pending": "in every state other than initial and finished", "Err": "in the error state"}[m]+" "+bad)
+		}
+	}
+	for _, lp := range []struct{ typ, m, field string }{{"PContacts", "Empty", "N"}, {"PContacts", "Parsed", "N"}, {"PPAIs", "Empty", "N"}, {"PPAIs", "Parsed", "N"}, {"PFLine", "Request", "Status"}} {
+		fn := c.SFuncs[lp.typ+"."+lp.m]
+		if fn == nil {
+			c.fail("Z5", lp.typ+"."+lp.m, token.NoPos, "not found")
+			continue
+		}
+		n++
+		okAll, bad := true, ""
+		fld := ""
+		for v := int64(0); v < 8; v++ {
+			got, f, okk := evalPred(fn, v)
+			if !okk {
+				okAll, bad = false, "the predicate could not be evaluated"
+				break
+			}
+			fld = f
+			want := v == 0
+			if lp.m == "Parsed" {
+				want = v > 0
+			}
+			if got != want {
+				okAll, bad = false, fmt.Sprintf("for %s == %d it answers %v", lp.field, v, got)
+				break
+			}
+		}
+		c.check(okAll && fld == lp.field, "Z5", lp.typ+"."+lp.m, fn.Pos(), lp.typ+"."+lp.m+"() is decided by "+lp.field+" alone: "+map[string]string{"Empty": "== 0", "Parsed": "> 0", "Request": "== 0"}[lp.m]+" "+bad)
+	}
+	c.check(n >= 20, "Z5", "predicates", token.NoPos, fmt.Sprintf("%d typestate predicates evaluated (frozen minimum 20)", n))
 }
 
 func init() {
@@ -428,6 +630,7 @@ func init() {
 		Rules: []Rule{
 			{"Z1", "every Reset method zeroes its whole receiver (composite wipe) or resets every field of the receiver type; only caller-supplied slices saved before the wipe survive it; re-initialising Init methods call Reset first and then only attach caller arrays", ruleZ1},
 			{"Z2", "a slice that survives Reset is cleared over its full length: the writers hand out element [N] before N++, so a bound of min(N,len) leaves a half-parsed element behind", ruleZ2},
+			{"Z5", "the typestate predicates say what the state says (evaluated on SSA for every value of the one field they read): Empty() true exactly in the initial state, Parsed() exactly in the finished state, Pending() exactly in every other, Err() exactly in the error state; list objects: Empty() is N == 0, Parsed() is N > 0; PFLine.Request() is Status == 0 — a reset object looks empty, a finished one parsed", ruleZ5},
 			{"Z4", "a re-initialising Init (Reset first) assigns every array that survives Reset on every path, so that nil arguments select the private defaults and never the arrays of the previous use", ruleZ4},
 			{"Z3", "PSIPMsg.Reset restores exactly Buf, HL.Hdrs and PV.Contacts.Vals, each from its own saved copy, after PV.Reset()/HL.Reset() cleaned the arrays", ruleZ3},
 		},
